@@ -1,5 +1,5 @@
 CONSTANTS
-  Focus = {"IOAppend","IOExtend","IOInsert","IOPop","IORemove","IOClear","IOSetItem","IODelItem","InitSet","InitDel","InitPop","InitClear","InitAdd","Register","SetName","ReplaceInput","ResizeInputs","ResizeOutputs","ReplaceAllUses","GAppend","GExtend","GInsertAfter","GRemove","NewNode"}
+  Focus = {"IOAppend","IOExtend","IOInsert","IOPop","IORemove","IOClear","IOSetItem","IODelItem","InitSet","InitDel","InitPop","InitClear","InitAdd","Register","SetName","ReplaceInput","ResizeInputs","ResizeOutputs","ReplaceAllUses","GAppend","GExtend","GInsertAfter","GRemove","NewNode","GExtendGen"}
   MaxNest = 2
   MaxDepth = 3
   PairVals = {1, 2, 5}
